@@ -256,6 +256,21 @@ def run_frontend(fe, tab, cfg_dict, tmpdir=None):
             st = XarrayStream(make_ds(tab))
         elif fe == "netcdf":
             st = NetcdfStream(make_ds(tab))
+        elif fe in ("netcdf_file", "xarray_file"):
+            # netCDF3 through the scipy engine (the only writer available offline); time stored as
+            # seconds since the epoch so that the undecoded NetcdfStream path reads it as such
+            d = tempfile.mkdtemp(prefix="verif_nc_")
+            try:
+                path = os.path.join(d, "t.nc")
+                ds = make_ds(tab)
+                ds["time"].encoding = {"units": "seconds since 1970-01-01 00:00:00", "dtype": "float64"}
+                ds.to_netcdf(path, engine="scipy")
+                st = NetcdfStream(path) if fe == "netcdf_file" else XarrayStream(path)
+                with np.errstate(all="ignore"):
+                    return list(st.run(cfg))
+            finally:
+                import shutil
+                shutil.rmtree(d, ignore_errors=True)
         else:
             raise ValueError(fe)
         with np.errstate(all="ignore"):
